@@ -536,6 +536,7 @@ func checkC22(p *Prog, r *Result, tier string) {
 			}
 			a.checkT5(sub, ts, p.pos(ts.call))
 		}
+		checkFanoutErrors(p, sub, "T5e")
 		// re-label the T1–T3 obligations as FI
 		for _, o := range sub.Obligs {
 			switch o.Status {
